@@ -30,7 +30,7 @@ func runC05E3(tier, scratch, replay string, nworkers int) *merged {
 	m := newMerged()
 	var cells []c05Cell
 	for _, ci := range []bool{false, true} {
-		for _, env := range []string{"", "true", "clean", "yes"} {
+		for _, env := range []string{"", "true", "clean", "yes", "TRUE", "1", "true "} {
 			for _, opt := range []string{"default", "update-true", "update-false"} {
 				for _, api := range []string{"snap", "json", "yaml", "ssnap", "sjson"} {
 					for _, slot := range []string{"missing", "equal", "different"} {
